@@ -348,7 +348,7 @@ PROPS = {
                    "which is the realistic failure mode (package-level shared state); a race on a path that no generated program executes concurrently stays invisible.",
         rule="set of programs x rounds; non-trivial = at least two distinct programs with overlapping lifetimes; distinct = distinct serialised cases.",
         assumptions=["each runner is used by one goroutine, as the statement requires"],
-        subs=[rapid("concurrent", "TestC18Concurrent", 5, 40, race=True, shards=dict(quick=4, thorough=16), shrinktime="60s")],
+        subs=[rapid("concurrent", "TestC18Concurrent", 6, 40, race=True, shards=dict(quick=5, thorough=16), shrinktime="60s")],
     ),
     "C19": dict(
         technique="PBT over constructed doubles with exact contract predicates (math/big where float arithmetic could round) + exhaustive sweep of half-way and integer-adjacent values",
